@@ -14,8 +14,8 @@ import re
 
 from vf import harness, protoids
 from vf.refproto import codec, javahash
-from vf.refserver import RefServer
-from vf.runner import h64
+from vf.refserver import RefServer, status_json
+from vf.runner import h64, ToolError
 
 LEVEL = 'model_checking'
 RULE = (
@@ -63,6 +63,31 @@ RULE = (
     'server must see handshake and login start first and nothing else but '
     'the keep-alive echo, nothing more may go to the first connection, the '
     'client must reach the play state; x all boundary versions; '
+    'R2 two complete uses of the same Connection object, BOTH judged '
+    'completely by the same rules as a single login (every plugin request '
+    'answered exactly once, secret fresh, cipher and threshold applied from '
+    'the right frame on in both directions, play state proven by traffic '
+    'incl. frames of T-1, T, T+1 bytes): first login = every sequence of '
+    'length <= 2 over {E("srv1"), C(64), C(256), P(1), P(300)} (28) '
+    'terminated by success, disconnect or the server closing the '
+    'connection; the first use ends and the second starts in one of 9 ways: '
+    'after success [user disconnect() then connect() | server play-state '
+    'disconnect packet, then connect() | server drops the line, then '
+    'connect() | server drops the line and the handle_exception callback '
+    'calls connect() itself (the documented pattern: _handle_exception '
+    'then skips its own disconnect) | server sends an undecodable frame and '
+    'the callback calls connect()], after login disconnect / after the '
+    'server closed during login [connect() from the user thread | from the '
+    'callback]; second login = every sequence of the same 28 then success: '
+    'the full product 28 x 28 x 9 at the latest version with a stub token; '
+    'plus: a user handler answering the plugin requests in both logins '
+    '(scripts with P, 2 ways); burst mode in the first login (scripts with '
+    'P, login disconnect, 2 ways) and in the second (2 ways); status() '
+    'instead of connect() as the second use after every first script x the '
+    '5 user-thread ways (handshake, request, ping must arrive in the plain '
+    'format, the answers must be delivered); and at the other boundary '
+    'versions the product over sequences of length <= 1 (thorough: <= 2; '
+    'plugin steps only from 385); '
     'S seed extras: scripts of length <= 2 over a seed-derived extra '
     'threshold and payload.  VERIF_SEED also derives the verify token and '
     'the scripted OS random bytes (= shared secrets) and permutes the order. '
@@ -79,6 +104,16 @@ ASSUMPTIONS = [
     'package with a fixed 1024-bit test key',
     'canonical schedule only (one networking thread, the user thread acts '
     'at quiescence); sends to a peer that has closed succeed silently',
+    'family R2: how the END of the first conversation surfaces (which '
+    'exception after the server closed the line or sent garbage, whether '
+    'the old socket is closed when the callback reconnects) is not judged '
+    'here (C14/C16); when the callback starts the second use during the '
+    'first login, only the conversation of the first login is judged, not '
+    'its end state.  status() as a second use is judged only for what the '
+    'compression and encryption clauses imply for a NEW connection: it '
+    'starts in the plain format (nothing inherited from the dead session), '
+    'so an independent server can decode handshake, request and ping, and '
+    'the answers reach the callbacks',
     'burst mode: plugin responses that pyCraft flushes after it has read '
     'login success are accepted by the reference server as login-state '
     'plugin responses until the client is quiescent (a vanilla server never '
@@ -116,6 +151,30 @@ PROBE_ID = 0x7D             # unknown clientbound play id, one-byte VarInt
 PROBE_MIDS = (2001, 2002, 2003)     # two-byte VarInts
 PROBE_MAX_T = 70000
 RETRY_KA = 88
+# family R2 (two complete uses of one Connection object)
+R2_STEPS = (('E', 'srv1'), ('C', 64), ('C', 256), ('P', 1, b''),
+            ('P', 300, b''))
+R2_ENDS = ((('success',), 'user'), (('success',), 'kick'),
+           (('success',), 'eof-user'), (('success',), 'eof-handler'),
+           (('success',), 'garbage-handler'),
+           (('disconnect', BYE), 'user'), (('disconnect', BYE), 'handler'),
+           (('close',), 'user'), (('close',), 'handler'))
+ENDING_TEXT = {
+    'user': 'the user thread calls it when the first conversation is over '
+            '(after success: after disconnect())',
+    'kick': 'after the server ended the play state with a disconnect '
+            'packet, from the user thread',
+    'eof-user': 'after the server dropped the line in the play state, from '
+                'the user thread',
+    'eof-handler': 'the handle_exception callback calls connect() itself '
+                   'when the server drops the line in the play state',
+    'garbage-handler': 'the handle_exception callback calls connect() '
+                       'itself when the server sends an undecodable frame '
+                       'in the play state',
+    'handler': 'the handle_exception callback calls connect() itself when '
+               'the first login fails',
+}
+GARBAGE = b'\x05\xff\xff\xff\xff\xff'
 
 
 def final_threshold(script):
@@ -175,6 +234,29 @@ def scripts(maxlen, thresholds=THRESHOLDS, payloads=PAYLOADS):
                     rec(seq + [('P', mid, pl)], e, c, used + (mid,))
     rec([], False, 0, ())
     return out
+
+
+def r2_scripts(maxlen):
+    """All sequences over R2_STEPS (one encryption request, each plugin id
+    once) of length <= maxlen."""
+    out = []
+
+    def rec(seq):
+        out.append(tuple(seq))
+        if len(seq) == maxlen:
+            return
+        for st in R2_STEPS:
+            if st[0] in 'EP' and st in seq:
+                continue
+            rec(seq + [st])
+    rec([])
+    return out
+
+
+def scn2(s1, term, ending, s2, v=LATEST, mode='wait', mode2='wait',
+         listener='none', second='login'):
+    return scn(s1, term, v=v, mode=mode, auth='stub', listener=listener,
+               retry=('2', ending, tuple(s2), mode2, second))
 
 
 def has(script, kind):
@@ -255,6 +337,31 @@ def families(tier, seed, mc):
     fam['R'] += [scn(s, ok, v=v, mode=m, retry='after-user-disconnect')
                  for s in s_2 for m in modes(s)
                  for v in (vp if has(s, 'P') else vs)]
+    # R2: two complete uses of the same object, both judged completely
+    user_ends = [te for te in R2_ENDS if not te[1].endswith('handler')]
+    rs2, rs1 = r2_scripts(2), r2_scripts(1)
+    rs2p = [s for s in rs2 if has(s, 'P')]
+    f2 = [scn2(s1, t, e, s2) for s1 in rs2 for s2 in rs2 for t, e in R2_ENDS]
+    f2 += [scn2(s1, t, e, s2, listener='answer')
+           for s1 in rs2p for s2 in rs2p
+           for t, e in (R2_ENDS[0], R2_ENDS[6])]
+    f2 += [scn2(s1, t, e, s2, mode='burst')
+           for s1 in rs2p for s2 in rs2 for t, e in R2_ENDS[5:7]]
+    f2 += [scn2(s1, t, e, s2, mode2='burst')
+           for s1 in rs2 for s2 in rs2p for t, e in (R2_ENDS[0], R2_ENDS[3])]
+    f2 += [scn2(s1, t, e, (), second='status')
+           for s1 in rs2 for t, e in user_ends]
+    for vv in vs:
+        if vv == LATEST:
+            continue
+        rsv = rs2 if thorough else rs1
+        if vv not in vp:
+            rsv = [s for s in rsv if not has(s, 'P')]
+        f2 += [scn2(s1, t, e, s2, v=vv)
+               for s1 in rsv for s2 in rsv for t, e in R2_ENDS]
+        f2 += [scn2(s1, t, e, (), v=vv, second='status')
+               for s1 in rsv for t, e in user_ends]
+    fam['R2'] = f2
     r = random.Random(seed)
     xt = r.choice([2, 3, 17, 63, 65, 100, 255, 257, 1000, 65536]) + \
         r.randrange(3) * 7
@@ -558,9 +665,226 @@ def idx_ge(mc, v, ref):
     return i[v] >= i[ref]
 
 
+def login_steps(script, term, token):
+    login = []
+    for st in script:
+        if st[0] == 'E':
+            login.append(('encrypt', st[1], token))
+        elif st[0] == 'C':
+            login.append(('compress', st[1]))
+        else:
+            login.append(('plugin', st[1], CHANNEL, st[2]))
+    login.append(tuple(term))
+    return login
+
+
+def server_frames(srv):
+    """(state, id, uncompressed length, compressed format?, was compressed?,
+    threshold in force) of every client frame the server decoded."""
+    frames = []
+    for (st, pid, payload, fmt, was), tag in zip(srv.frames, srv.frame_tags):
+        thr = None
+        for off, t in srv.switches:
+            if tag is not None and tag >= off:
+                thr = t
+        frames.append((st, pid, len(codec.varnum(pid)) + len(payload), fmt,
+                       was, thr))
+    return frames
+
+
+def body2(W, sc, seed):
+    """Family R2: the same Connection object is used twice; both uses are
+    recorded completely (one record per TCP connection)."""
+    script, term, v, mode, auth, listener, delivery, retry = sc
+    _tag, ending, script2, mode2, second = retry
+    C, mc, S = W.C, W.mc, W.S
+    from minecraft.networking.packets import clientbound, serverbound
+    token = verify_token(seed)
+    by_handler = ending.endswith('handler')
+
+    def factory(conn):
+        i = len(W.servers)
+        if i == 0:
+            srv = Srv(conn, protoids.ids, W.rank, mode=mode,
+                      login=login_steps(script, term, token),
+                      rsa=harness.rsa_key(), play_script=play_events(script))
+        elif i == 1 and second == 'status':
+            srv = Srv(conn, protoids.ids, W.rank,
+                      status={'json': status_json(protocol=v, name='vf'),
+                              'pong': True})
+        else:
+            srv = Srv(conn, protoids.ids, W.rank, mode=mode2,
+                      login=login_steps(script2, ('success',), token),
+                      rsa=harness.rsa_key(),
+                      play_script=play_events(script2))
+        W.servers.append(srv)
+        return srv
+    W.net.listen('srv', 25565, factory)
+
+    excs, exits, log, states, answered = [], [], [], [], []
+    status_got, ping_got = [], []
+    tok = StubToken() if auth == 'stub' else None
+    st = {'reconnected': False, 'mark': None, 'raised': None, 'c2s0': None}
+
+    def lens():
+        return (len(log), len(excs), len(exits), len(S.urandom_log),
+                0 if tok is None else len(tok.calls), len(states))
+
+    def again():
+        """The second use of the object, from whoever starts it."""
+        st['mark'] = lens()
+        st['c2s0'] = len(W.net.conns[0].c2s)
+        try:
+            if second == 'status':
+                conn.status(handle_status=status_got.append,
+                            handle_ping=ping_got.append)
+            else:
+                conn.connect()
+        except Exception as e:
+            st['raised'] = repr(e)
+
+    def on_exc(e, i):
+        excs.append((type(e).__name__, str(e),
+                     getattr(e, 'server_version', None),
+                     getattr(e, 'server_protocol', None)))
+        if by_handler and not st['reconnected']:
+            st['reconnected'] = True
+            again()
+
+    conn = W.connection(allowed_versions={v}, auth_token=tok,
+                        handle_exception=on_exc,
+                        handle_exit=lambda: exits.append(1))
+
+    def abstract(pos):
+        o = conn.options
+        return (type(conn.reactor).__name__, bool(o.compression_enabled),
+                o.compression_threshold,
+                type(conn.socket).__name__ == 'EncryptedSocketWrapper',
+                tuple(sorted(answered)), pos, st['mark'] is not None)
+
+    def see(p):
+        states.append(abstract(len(log)))
+        log.append(describe_rx(p))
+    conn.register_packet_listener(see, C.packets.Packet, early=True)
+    conn.register_packet_listener(
+        lambda p: answered.append(p.message_id),
+        serverbound.login.PluginResponsePacket, outgoing=True)
+    if listener == 'answer' and idx_ge(mc, v, 385):
+        def takeover(p):
+            conn.write_packet(serverbound.login.PluginResponsePacket(
+                message_id=p.message_id, successful=True, data=b'ok'))
+            raise C.IgnorePacket()
+        conn.register_packet_listener(
+            takeover, clientbound.login.PluginRequestPacket, early=True)
+
+    def in_play(since):
+        return type(conn.reactor).__name__ == 'PlayingReactor' and \
+            conn.networking_thread is not None and not excs[since:]
+
+    def collect(idx, lo, hi, chat_sent):
+        if idx >= len(W.servers):
+            return None
+        srv, vc = W.servers[idx], W.net.conns[idx]
+        nt = conn.networking_thread
+        ag = getattr(nt, '_vf_agent', None) if nt is not None else None
+        return {
+            'errors': list(srv.errors), 'frames': server_frames(srv),
+            'play_rx': list(srv.play_rx),
+            'replies': list(srv.plugin_replies),
+            'token': token, 'token_back': srv.token_back,
+            'secret': srv.secret, 'urandom': S.urandom_log[lo[3]:hi[3]],
+            'enc_rx': srv.encrypted_rx_bytes,
+            'after_resp': None if srv.resp_end is None
+            else len(vc.c2s) - srv.resp_end,
+            'joins': None if tok is None else tok.calls[lo[4]:hi[4]],
+            'log': log[lo[0]:hi[0]], 'states': states[lo[5]:hi[5]],
+            'login_name': srv.login_name,
+            'reactor': type(conn.reactor).__name__,
+            'excs': excs[lo[1]:hi[1]], 'exits': len(exits[lo[2]:hi[2]]),
+            'chat_sent': chat_sent,
+            'thread': None if ag is None else (ag.state, ag.kind),
+            'live': [repr(a) for a in S.live()],
+            'agent_excs': [repr(a.exc) for a in S.agents
+                           if a.exc is not None],
+            'client_gone': bool(vc.client_gone),
+            'steps_sent': srv.step_i, 'srv_state': srv.state,
+            'waiting': srv.waiting,
+            'conn_exception': type(conn.exception).__name__,
+            'retry': None,
+        }
+
+    zero = (0, 0, 0, 0, 0, 0)
+    conn.connect()
+    W.settle()
+    W.servers[0].login_tail = False
+    o = None
+    attempted = True
+    if not (by_handler and term[0] != 'success'):
+        # the first conversation is recorded when it is over, as in the
+        # other families; then it is ended and the object used again
+        chat1 = False
+        if term[0] == 'success' and in_play(0):
+            conn.write_packet(serverbound.play.ChatPacket(message=CHAT))
+            chat1 = True
+            W.settle()
+        states.append(abstract(len(log)))
+        o = collect(0, zero, lens(), chat1)
+        srv = W.servers[0]
+        if term[0] == 'success' and not chat1:
+            attempted = False       # reported by the judge of the first
+        elif term[0] == 'success':
+            if ending == 'user':
+                conn.disconnect()
+            elif ending == 'kick':
+                srv.play(('disconnect', BYE))
+            elif ending in ('eof-user', 'eof-handler'):
+                srv.play(('close',))
+            else:
+                srv.play(('rawbytes', GARBAGE))
+            W.settle()
+        if attempted and not by_handler:
+            again()
+            W.settle()
+    mark = st['mark']
+    if o is None:
+        # the handler started the second use inside the first settle
+        o = collect(0, zero, mark if mark is not None else lens(), False)
+    o['second'] = None
+    o['second_attempted'] = attempted
+    o['second_started'] = mark is not None
+    o['second_raised'] = st['raised']
+    o['connections'] = len(W.servers)
+    if mark is None:
+        return o
+    if len(W.servers) > 1:
+        W.servers[1].login_tail = False
+    if second == 'status':
+        s2 = W.servers[1] if len(W.servers) > 1 else None
+        o['second'] = None if s2 is None else {
+            'errors': list(s2.errors), 'handshake': s2.handshake,
+            'frames': [(f[0], f[1], f[3], f[4]) for f in s2.frames],
+            'requests': s2.status_requests, 'pings': len(s2.pings),
+            'status_got': list(status_got), 'ping_got': len(ping_got),
+            'excs': excs[mark[1]:],
+            'agent_excs': [repr(a.exc) for a in S.agents
+                           if a.exc is not None],
+            'states': []}
+    else:
+        chat2 = False
+        if in_play(mark[1]) and len(W.servers) > 1:
+            conn.write_packet(serverbound.play.ChatPacket(message=CHAT))
+            chat2 = True
+            W.settle()
+        states.append(abstract(len(log)))
+        o['second'] = collect(1, mark, lens(), chat2)
+    o['old_conn_more'] = len(W.net.conns[0].c2s) - st['c2s0']
+    return o
+
+
 def run_one(sc, seed):
     useed = (seed * 7919 + h64(repr(sc))) & 0x3fffffff
-    return harness.run(lambda W: body(W, sc, seed), horizon=400000,
+    fn = body2 if isinstance(sc[7], tuple) else body
+    return harness.run(lambda W: fn(W, sc, seed), horizon=400000,
                        hold=sc[6] != 'eager', send_after_close='ok',
                        seed=useed)
 
@@ -593,6 +917,20 @@ def judge(sc, seed, x):
         b('hang', 'the client %s: %s' % x.failure)
         return out
     o = x.result
+    if isinstance(retry, tuple):
+        judge_two(sc, o, b)
+        return out
+    complete = judge_login((script, term, v, mode, auth, listener), o, b)
+    if retry and complete:
+        judge_retry(sc, o, b)
+    return out
+
+
+def judge_login(view, o, b, end_state=True):
+    """One login conversation, from what collect()/body() recorded of it.
+    end_state=False: the client had already gone on to its next connection
+    when the record was taken, so only the conversation is judged."""
+    script, term, v, mode, auth, listener = view
     der = harness.rsa_key()[1]
     stalled = listener == 'ignore' and mode == 'wait' and has(script, 'P')
     if stalled:
@@ -602,6 +940,7 @@ def judge(sc, seed, x):
         done = script
     success = not stalled and term[0] == 'success'
     disconnect = not stalled and term[0] == 'disconnect'
+    closed = not stalled and term[0] == 'close'
     enc = [s for s in done if s[0] == 'E']
     plugins = [s for s in done if s[0] == 'P']
 
@@ -612,7 +951,7 @@ def judge(sc, seed, x):
           'what the client sent: %s (client: reactor %s, exceptions %r %r)'
           % ('; '.join(o['errors'][:3]), o['reactor'], o['excs'],
              o['agent_excs']))
-        return out
+        return False
 
     nsteps = len(done) + (0 if stalled else 1)
     if o['steps_sent'] < nsteps:
@@ -621,7 +960,7 @@ def judge(sc, seed, x):
           '%r); client: reactor %s, thread %r, exceptions %r %r'
           % (o['steps_sent'], nsteps, o['steps_sent'], o['waiting'],
              o['reactor'], o['thread'], o['excs'], o['agent_excs']))
-        return out
+        return False
 
     # what the client's listeners saw = what the server sent, in order
     name = o['login_name']
@@ -669,7 +1008,7 @@ def judge(sc, seed, x):
               'fresh 16-byte draw from the OS: draws %s, secret %s'
               % ([u.hex() for u in o['urandom']], o['secret'].hex()))
         if o['secret'] is not None and o['after_resp'] and \
-                not o['enc_rx'] and not disconnect:
+                not o['enc_rx'] and not disconnect and not closed:
             b('not-encrypted-after-response', '%d bytes followed the '
               'encryption response but the server deciphered none'
               % o['after_resp'])
@@ -703,7 +1042,7 @@ def judge(sc, seed, x):
     else:
         wr = [(s[1], False, None) for s in plugins]
     gr = sorted(o['replies'], key=repr)
-    may_be_lost = disconnect and mode == 'burst'
+    may_be_lost = (disconnect or closed) and mode == 'burst'
     if gr != sorted(wr, key=repr) and not (
             may_be_lost and _submultiset(gr, wr)):
         b('plugin-replies', 'plugin requests %r, user handler %s: expected '
@@ -762,15 +1101,17 @@ def judge(sc, seed, x):
                 b('login-disconnect', 'disconnect %r should surface as '
                   'LoginDisconnect carrying %r; got %s(%r)'
                   % (term[1], text, tn, ts))
-        if o['live'] or o['thread'] is not None:
+        if end_state and (o['live'] or o['thread'] is not None):
             b('thread-alive', 'after a login disconnect the networking '
               'thread is still there: %r %r' % (o['live'], o['thread']))
-        if not o['client_gone']:
+        if end_state and not o['client_gone']:
             b('socket-open', 'after a login disconnect the client did not '
               'close its socket')
-        if o['agent_excs']:
+        if end_state and o['agent_excs']:
             b('escaped', 'an exception escaped the networking thread '
               'although handle_exception was given: %r' % o['agent_excs'])
+    elif closed:
+        pass    # the server hung up: how that surfaces is not C10's business
     else:       # the user's handler swallowed the request: login waits
         if o['reactor'] != 'LoginReactor' or o['excs'] or \
                 o['agent_excs'] or o['exits'] or \
@@ -779,9 +1120,75 @@ def judge(sc, seed, x):
               'without answering; expected the login to wait quietly, got '
               'reactor %s thread %r exceptions %r %r'
               % (o['reactor'], o['thread'], o['excs'], o['agent_excs']))
-    if retry:
-        judge_retry(sc, o, b)
-    return out
+    return True
+
+
+def judge_two(sc, o, b):
+    """Family R2: both uses of the object judged completely."""
+    script, term, v, mode, auth, listener, delivery, retry = sc
+    _tag, ending, script2, mode2, second = retry
+    early = ending.endswith('handler') and term[0] != 'success'
+    if not judge_login((script, term, v, mode, auth, listener), o, b,
+                       end_state=not early):
+        return
+    how = 'the SECOND use (%s)' % (
+        'status()' if second == 'status' else 'connect()')
+    if not o['second_attempted']:
+        b('second-not-attempted', 'the first login did not reach the play '
+          'state (reactor %s, exceptions %r), so %s could not be tried'
+          % (o['reactor'], o['excs'], how))
+        return
+    if not o['second_started']:
+        b('second-not-started', '%s was never started: the handle_exception '
+          'callback was not called (exceptions so far %r)'
+          % (how, o['excs']))
+        return
+    sec = o['second']
+    if o['second_raised'] or o['connections'] != 2 or sec is None:
+        b('second-no-connection', '%s: raised %r, %d TCP connections in '
+          'total' % (how, o['second_raised'], o['connections']))
+        return
+    if o['old_conn_more']:
+        b('second-wrote-to-old-connection', '%s: %d more bytes were sent on '
+          'the first connection' % (how, o['old_conn_more']))
+
+    def b2(cid, what):
+        b('second-' + cid, '%s: %s' % (how, what))
+    if second == 'status':
+        judge_status(v, sec, b2)
+    else:
+        judge_login((script2, ('success',), v, mode2, auth, listener), sec,
+                    b2)
+
+
+def judge_status(v, r, b):
+    """A status query as the second use: the server must be able to decode
+    it (plain framing: a new connection has no compression and no cipher)
+    and the client must deliver the answers."""
+    if r['errors']:
+        b('server-cannot-decode', 'the reference server could not accept '
+          'what the client sent: %s; frames %r'
+          % ('; '.join(r['errors'][:3]), r['frames'][:4]))
+        return
+    hs = r['handshake']
+    if hs is None or hs['protocol'] != v or hs['next'] != 1:
+        b('handshake', 'expected a handshake for protocol %d/status, the '
+          'server got %r' % (v, hs))
+    want = [('handshake', 0, False, False), ('status', 0, False, False),
+            ('status', 1, False, False)]
+    if r['frames'] != want or r['requests'] != 1 or r['pings'] != 1:
+        b('conversation', 'expected handshake, status request, ping in the '
+          'plain format; the server got %r (%d requests, %d pings)'
+          % (r['frames'][:6], r['requests'], r['pings']))
+    if len(r['status_got']) != 1 or r['ping_got'] != 1 or \
+            not isinstance(r['status_got'][0], dict) or \
+            r['status_got'][0].get('version', {}).get('protocol') != v:
+        b('answers-not-delivered', 'the server answered the request and the '
+          'ping; handle_status got %s, handle_ping %d calls'
+          % (_short(r['status_got']), r['ping_got']))
+    if r['excs'] or r['agent_excs']:
+        b('unexpected-error', 'exceptions %r / escaped %r'
+          % (r['excs'], r['agent_excs']))
 
 
 def judge_retry(sc, o, b):
@@ -897,6 +1304,47 @@ def check_one(ctx, sc):
         if o['retry'] is not None:
             ctx.cls('second connect() on the same object, %s' % retry)
             ctx.outcome('retry -> %s' % o['retry']['reactor'])
+        sec = o.get('second')
+        if sec is not None:
+            r2 = retry
+            for st in sec['states']:
+                ctx.state(st)
+            ctx.cls('R2 first use ends: %s / %s' % (term[0], r2[1]))
+            ctx.cls('R2 second use: %s' % r2[4])
+            if r2[4] == 'status':
+                ctx.outcome('second use status -> %d answers'
+                            % len(sec['status_got']))
+            else:
+                ctx.transitions += len(sec['log'])
+                ctx.outcome('second login -> %s' % (
+                    sec['excs'][0][0] if sec['excs'] else sec['reactor']))
+                k1 = set(s[0] for s in script)
+                k2 = set(s[0] for s in r2[2])
+                for k, nm in (('E', 'encryption'), ('C', 'compression'),
+                              ('P', 'plugin request')):
+                    ctx.cls('R2 %s in %s' % (nm, 'both logins' if k in k1
+                                             and k in k2 else
+                                             'the first login only'
+                                             if k in k1 else
+                                             'the second login only'
+                                             if k in k2 else 'neither'))
+                p1 = set(s[1] for s in script if s[0] == 'P')
+                p2 = set(s[1] for s in r2[2] if s[0] == 'P')
+                if p1 & p2:
+                    ctx.cls('R2 same plugin message id in both logins')
+                if p1 and p2 and p1 != p2:
+                    ctx.cls('R2 different plugin message ids in the logins')
+                t1, t2 = final_threshold(script), final_threshold(r2[2])
+                if t1 is not None and t2 is not None and t1 != t2:
+                    ctx.cls('R2 different thresholds in the two logins')
+                for fr in sec['frames']:
+                    if fr[3]:
+                        ctx.cls('R2 second login: client frame in '
+                                'compressed format')
+                if sec['secret'] is not None:
+                    ctx.cls('R2 second login encrypted')
+                if sec['chat_sent']:
+                    ctx.cls('R2 second login: play state proven by traffic')
         if script and script[-1][0] == 'P' and \
                 script[-1][1] in PROBE_MIDS:
             ctx.cls('login plugin requests of threshold-1/0/+1 bytes')
@@ -908,19 +1356,32 @@ def check_one(ctx, sc):
     ctx.cls('mode %s' % mode)
     ctx.cls('version %d' % v)
     ctx.cls('script length %d' % len(script))
+    if isinstance(retry, tuple):
+        rkey = ' then=%s/%s%s' % (
+            retry[1], 'status' if retry[4] == 'status' else kinds(retry[2]),
+            ' burst2' if retry[3] == 'burst' else '')
+        rtext = ('; SECOND use of the same object: %s, server script %s '
+                 'then success, %s mode (%s)'
+                 % (retry[4], show(retry[2]), retry[3],
+                    ENDING_TEXT[retry[1]])
+                 if retry[4] != 'status' else
+                 '; SECOND use of the same object: status() (%s)'
+                 % ENDING_TEXT[retry[1]])
+    else:
+        rkey = ' retry=' + retry if retry else ''
+        rtext = ', then connect() again %s' % retry if retry else ''
     for cid, what in found:
         key = '%s script=%s term=%s%s%s%s%s' % (
             cid, kinds(script), term[0],
             '' if listener == 'none' else ' handler=' + listener,
             '' if delivery == 'eager' else ' ' + delivery,
-            ' burst' if mode == 'burst' else '',
-            ' retry=' + retry if retry else '')
+            ' burst' if mode == 'burst' else '', rkey)
         ctx.violation(
             key,
             'server script %s then %s, protocol %d, %s mode, auth %s, user '
             'handler %s, %s delivery%s: %s'
             % (show(script), term, v, mode, auth, listener, delivery,
-               ', then connect() again %s' % retry if retry else '', what),
+               rtext, what),
             case_of(sc))
     return found
 
@@ -936,15 +1397,22 @@ def show(script):
 
 def case_of(sc):
     script, term, v, mode, auth, listener, delivery, retry = sc
+    if isinstance(retry, tuple):
+        retry = [retry[0], retry[1], [list(s) for s in retry[2]], retry[3],
+                 retry[4]]
     return {'script': [list(s) for s in script], 'term': list(term),
             'v': v, 'mode': mode, 'auth': auth, 'listener': listener,
             'delivery': delivery, 'retry': retry}
 
 
 def sc_of(case):
+    retry = case.get('retry', '')
+    if isinstance(retry, (list, tuple)):
+        retry = (retry[0], retry[1], tuple(tuple(s) for s in retry[2]),
+                 retry[3], retry[4])
     return scn([tuple(s) for s in case['script']], tuple(case['term']),
                case['v'], case['mode'], case['auth'], case['listener'],
-               case['delivery'], case.get('retry', ''))
+               case['delivery'], retry)
 
 
 def w_chunk(ctx, chunk):
@@ -972,7 +1440,8 @@ def run(ctx):
     random.Random(ctx.seed).shuffle(allsc)
     ctx.extra.update(info)
     ctx.extra['scripts_enumerated'] = len({sc[0] for sc in allsc})
-    ctx.note_distinct(sum(1 for sc in allsc if sc[0]))
+    ctx.note_distinct(sum(1 for sc in allsc if sc[0] or
+                          isinstance(sc[7], tuple) and sc[7][2]))
     chunks, cur, w = [], [], 0
     for sc in allsc:
         cur.append(sc)
@@ -983,6 +1452,19 @@ def run(ctx):
     if cur:
         chunks.append(cur)
     ctx.pmap(w_chunk, chunks)
+    if not ctx.violations:
+        for label in ('R2 same plugin message id in both logins',
+                      'R2 different plugin message ids in the logins',
+                      'R2 compression in the first login only',
+                      'R2 compression in the second login only',
+                      'R2 different thresholds in the two logins',
+                      'R2 encryption in both logins',
+                      'R2 first use ends: success / eof-handler',
+                      'R2 first use ends: close / handler',
+                      'R2 second use: status',
+                      'R2 second login: play state proven by traffic'):
+            if not ctx.classes.get(label):
+                raise ToolError('vacuous: no execution of class %r' % label)
     for sc in (scn([('E', 'srv1'), ('C', 64), ('P', 300, b'\x01\x02')],
                    ('success',), mode='burst'),
                scn([('C', 0), ('E', '-')], ('disconnect', DISCONNECTS[5]),
